@@ -898,6 +898,9 @@ def dV(
 
     dh = DH(h=h)
     da = Da(0.0, z, omega_m, omega_l, omega_k, h=h, flat=flat, npts=npts)
+    omega_m, omega_l, omega_k = _extract_omegas(
+        omega_m, omega_l, omega_k, flat,
+    )
     Ez = 1.0 / Ez_inverse(z, omega_m, omega_l, omega_k)
     if comoving:
         dv = dh * da ** 2 / Ez * (1.0 + z) ** 2
